@@ -10,7 +10,7 @@ VARIABLES tb
 L(s) == [k |-> "lit", s |-> s]
 Dyn(n) == [k |-> "dyn", name |-> n]
 Tl(n) == [k |-> "tail", name |-> n]
-ResX(pats, guard, hg, data, dflt, routes) == [t |-> "res", pats |-> pats, guard |-> guard, hg |-> hg, data |-> data, dflt |-> dflt, routes |-> routes]
+ResX(pats, guard, hg, data, dflt, routes) == [t |-> "res", pats |-> pats, guard |-> guard, hg |-> hg, data |-> data, dflt |-> dflt, routes |-> routes, via |-> "service"]
 Res(pat, guard, data, dflt, routes) == ResX(<<pat>>, guard, FALSE, data, dflt, routes)
 ScopeX(prefix, guard, hg, data, dflt, children) == [t |-> "scope", prefix |-> prefix, guard |-> guard, hg |-> hg, data |-> data, dflt |-> dflt, children |-> children]
 Scope(prefix, guard, data, dflt, children) == ScopeX(prefix, guard, FALSE, data, dflt, children)
@@ -45,7 +45,11 @@ Tops == <<
   Scope(<<L(<<"/", "a">>)>>, "any", 0, 0, <<Leaves[7], Leaves[1]>>),
   ScopeX(<<L(<<"/", "a">>)>>, "POST", TRUE, 0, 25, <<Leaves[1]>>),
   ResX(<< <<L(<<"/", "b">>)>>, <<L(<<"/">>), Dyn("p"), L(<<"/", "1">>)>> >>, "any", FALSE, 0, 0, <<R("GET", 8)>>),
-  ResX(<< <<L(<<"/", "a">>)>> >>, "GET", TRUE, 0, 0, <<R("any", 9)>>) >>
+  ResX(<< <<L(<<"/", "a">>)>> >>, "GET", TRUE, 0, 0, <<R("any", 9)>>),
+  \* cfg.route(path, route): one resource per call, carrying the route's guard (registered through App::configure)
+  [ResX(<< <<L(<<"/", "b">>)>> >>, "GET", FALSE, 0, 0, <<R("any", 26)>>) EXCEPT !.via = "cfg"],
+  [ResX(<< <<L(<<"/", "b">>)>> >>, "POST", FALSE, 0, 0, <<R("any", 27)>>) EXCEPT !.via = "cfg"],
+  [ResX(<< <<L(<<"/", "a">>)>> >>, "POST", TRUE, 0, 0, <<R("any", 28)>>) EXCEPT !.via = "cfg"] >>
 Tables == {[children |-> c, data |-> d, dflt |-> df] :
              c \in UNION {{s \in [1..n -> 1..Len(Tops)] : \A i, j \in 1..n : i # j => s[i] # s[j]} : n \in 1..MaxTop},
              d \in {1}, df \in {0, 30}}
